@@ -264,6 +264,68 @@ def multi_file_stage(ck, rng, oracles, thorough, stats, nviol):
     return nviol
 
 
+def all_arms_stage(ck, rng, oracles, thorough, stats, nviol):
+    """'All arms terminate' compositions (pygen.all_arms_bodies): pyscn's dead ranges against the markers CPython executes."""
+    import time as _time
+    t0 = _time.time()
+    core, rest, total = pygen.all_arms_bodies(rng, 20000 if thorough else 1500)
+    labelled = core + rest
+    per = 40
+    mods = []
+    for off in range(0, len(labelled), per):
+        chunk = labelled[off:off + per]
+        ast, lines = pygen.layout([('def', 0, i + 1, b) for i, (_l, b) in enumerate(chunk)])
+        mods.append({"ast": ast, "lines": lines, "labels": {"f%d" % (i + 1): l for i, (l, _b) in enumerate(chunk)}})
+    d = lib.fresh_dir("c01_arms")
+    cc.write_modules(mods, d, prefix="a")
+    rc, data, err = cc.run_pyscn(d, select="deadcode")
+    if data is None:
+        ck.broken_ties.append("all-arms stream: pyscn produced no report (rc=%s): %s" % (rc, err[-300:]))
+        return nviol
+    cc.index_report(data, mods)
+    cc.cpython_traces(mods, oracles)
+    st = dict(functions=0, core=len(core), sampled_of_the_rest=len(rest), rest_total=total, runs=0, executed_markers=0, dead_ranges=0,
+              functions_with_dead_code=0, executed_finally_markers=0, functions_whose_every_arm_jumps=0, disagreements=0, by_depth={})
+    stats["all_arms"] = st
+    for m in mods:
+        for name, lst in cc.def_table(m).items():
+            s, path = lst[0]
+            lab = m["labels"].get(name, "?")
+            ranges = m["impl_dead"].get(name, [])
+            st["functions"] += 1
+            st["dead_ranges"] += len(ranges)
+            st["functions_with_dead_code"] += bool(ranges)
+            dp = lab.count(">") + 2
+            st["by_depth"][dp] = st["by_depth"].get(dp, 0) + 1
+            pat = lab[lab.rfind("(") + 1:-1].split(",")
+            st["functions_whose_every_arm_jumps"] += all(t != "none" for t in pat)
+            fin = set()                   # markers inside finally clauses of this function
+            for x in pygen.own_statements(s[3]):
+                if x[0] == 'try' and x[5] is not None:
+                    fin.update(y[1] for y in pygen.own_statements(x[5]))
+            for oi, (trace, outc) in enumerate(m["py_traces"].get(s[1]) or []):
+                st["runs"] += 1
+                st["executed_markers"] += len(trace)
+                st["executed_finally_markers"] += sum(1 for k in trace if k in fin)
+                bad = [k for k in trace if cc.covered(k, ranges)]
+                if bad:
+                    st["disagreements"] += 1
+                    if nviol < 3:
+                        nviol += 1
+                        ck.violation("statement at line %d of %s (%s) executes under CPython (oracle %s) but lies in a range pyscn reports as dead code: %s; "
+                                     "composition %s" % (bad[0], name, m["lines"][bad[0] - 1].strip()[:40], oracles[oi],
+                                                          [r for r in ranges if r[0] <= bad[0] <= r[1]], lab),
+                                     {"kind": "live-flagged-dead", "file": m["path"], "function": name, "composition": lab,
+                                      "source": m["lines"][s[1] - 1:pygen.end_line(s)], "first_line": s[1],
+                                      "oracle": oracles[oi], "executed_line": bad[0], "trace": trace, "dead_ranges": ranges,
+                                      "found_by": "all-arms-terminate compositions"}, independent=True)
+                    break
+    if not st["dead_ranges"] or not st["executed_finally_markers"] or not st["functions_whose_every_arm_jumps"]:
+        ck.broken_ties.append("all-arms stream is vacuous: %s" % st)
+    st["seconds"] = round(_time.time() - t0, 1)
+    return nviol
+
+
 def main(tier):
     ck = lib.Check("C01", tier)
     ck.prepare("C01.v")
@@ -353,6 +415,11 @@ def main(tier):
         nviol = multi_file_stage(ck, rng, oracles, thorough, stats, nviol)
     except Exception as e:
         ck.broken_ties.append("multi-file stage failed: " + str(e)[-600:])
+    # ---- 'all arms terminate' compositions: the cleanup clauses of the outer frames are reachable only through the jumps ----
+    try:
+        nviol = all_arms_stage(ck, rng, oracles, thorough, stats, nviol)
+    except Exception as e:
+        ck.broken_ties.append("all-arms stage failed: " + str(e)[-600:])
     sem_mism = tie_mism = 0
     suspects = []   # statements pyscn calls dead and the model calls live: candidates for a CPython witness
     for m in mods:
